@@ -15,7 +15,7 @@ from multiprocessing import Pool
 
 ROOT = os.path.dirname(os.path.dirname(os.path.abspath(__file__)))
 SCR = "/tmp/h2t-mut"
-FILES = ["src/render/text_renderer.rs", "src/lib.rs", "src/css.rs", "src/css/parser.rs"]
+FILES = [f for f in os.environ.get("MUT_FILES", "").split(",") if f] or ["src/render/text_renderer.rs", "src/lib.rs", "src/css.rs", "src/css/parser.rs"]   # MUT_FILES=a,b restricts the run
 PROPS = ["CORR"] + ["C%02d" % i for i in range(1, 21)]   # CORR first: the general correspondence stream catches most
 ENV = dict(os.environ, CARGO_NET_OFFLINE="true")
 
